@@ -23,6 +23,15 @@ loadstate_t iobuffer::load_buffer(FILE *fin, bool ispadding)
 {
   u32_t load = fread(b, 1, sum, fin);
   bool readover = feof(fin);
+  if ((!ispadding) && (!readover))
+  {
+    // a read that exactly fills the buffer does not set EOF: look one byte ahead
+    int c = fgetc(fin);
+    if (c == EOF)
+      readover = true;
+    else
+      ungetc(c, fin);
+  }
   tail = load & 0xf;
   total = load >> 4;
   now = 0;
@@ -35,6 +44,8 @@ loadstate_t iobuffer::load_buffer(FILE *fin, bool ispadding)
   }
   if ((!ispadding) && readover)
   {
+    if (total == 0)
+      return NODATA;
     isfinal = true;
     return FINAL;
   }
